@@ -913,7 +913,7 @@ class XsdElement(XsdComponent, ParticleMixin,
                 fields = tuple(
                     s.get_value(element_node, context.namespaces) for s in selectors
                 )
-            except (XMLSchemaValueError, XMLSchemaTypeError) as err:
+            except (ValueError, XMLSchemaTypeError) as err:
                 context.validation_error(validation, self, err, obj)
             else:
                 if isinstance(counter, KeyrefCounter) and \
